@@ -32,6 +32,10 @@ from poolsim.simpool import module_state_baseline  # noqa: E402
 
 module_state_baseline()  # capture the import-time module state before any run touches it
 
+from poolsim.static import mutator_functions  # noqa: E402
+
+MUTATORS = mutator_functions(QUARA_DIR)
+
 TIME_MODULES = [
     "quara.protocol.qtomography.standard.projected_linear_estimator",
     "quara.protocol.qtomography.standard.loss_minimization_estimator",
@@ -131,11 +135,11 @@ def execute_flow(cfg, schedule=None, rng=None, max_yields=None, keep_dir=False, 
         line_set = schedule.get("line_set", "none")
     out_dir = tempfile.mkdtemp(prefix="poolsim-", dir=env.scratch_root())
     sim = Sim(decider, clock, QUARA_DIR, max_yields=max_yields, line_files=LINE_FILE_SETS.get(line_set, ()), out_dir=out_dir,
-              probes=stats_p, faults=stats_f, proc_seed=parent_seed + 17, pollution=pollution)
+              probes=stats_p, faults=stats_f, proc_seed=parent_seed + 17, pollution=pollution, mutators=MUTATORS if line_set == "mutators" else None)
     test_setting = workload.build_test_setting(cfg)
     if not is_ref and schedule.get("stale_dir"):
         # fault kind stale_output_dir: the output directory still holds the files of an earlier run made with other seeds
-        stale_cfg = dict(cfg, seed_data=cfg["seed_data"] + 1, seed_qoperation=cfg["seed_qoperation"] + 1)
+        stale_cfg = dict(cfg, seed_data=cfg["seed_data"] + 1, seed_qoperation=cfg["seed_qoperation"] + 1, cases=[dict(c, para=not c["para"]) for c in cfg["cases"]])
         with _Patches(Sim(Decider(record={"proc": [], "threads": []}), SimClock(), QUARA_DIR, out_dir=out_dir), SimClock()):
             qflow.execute_simulation_test_settings([workload.build_test_setting(stale_cfg)], out_dir, pdf_mode="none", exec_sim_check=copy.deepcopy(cfg.get("exec_sim_check")), parallel_mode=None,
                                                    is_computation_time_required=cfg.get("is_computation_time_required", True))
@@ -171,6 +175,7 @@ def execute_flow(cfg, schedule=None, rng=None, max_yields=None, keep_dir=False, 
     finally:
         saved.install()
     res["disk_writes"] = disk.writes
+    res["disk_written"] = list(disk.written)
     res["out_dir"] = out_dir
     res["sim"] = sim
     res["clock"] = clock
@@ -337,12 +342,25 @@ def gen_schedule_header(rng, cfg, fault_free, est, si):
     else:
         policy = {"kind": "bernoulli", "rate": rng.choice([1e-4, 1e-3, 1e-3, 1e-2])}
     heavy = any(c["estimator"] == "lossmin" for c in cfg["cases"])
+    if rng.random() < 0.45:
+        # line events only inside functions that write shared state, pre-empted there at a high rate
+        policy["hot_rate"] = rng.choice([0.02, 0.1, 0.3])
+        pollution, clock = gen_fault_script(rng, False)
+        hdr = {"proc": [], "threads": [], "pollution": pollution, "clock": clock, "policy": policy, "line_set": "mutators", "parent_seed": 2 + si}
+        return _with_disk_faults(rng, cfg, hdr)
     line_set = rng.choice(["none", "none", "csys", "simulation", "protocol"] + ([] if heavy else ["loss_algo", "objects"]) + (["loss_algo"] if heavy and rng.random() < 0.15 else []))
     pollution, clock = gen_fault_script(rng, False)
     hdr = {"proc": [], "threads": [], "pollution": pollution, "clock": clock, "policy": policy, "line_set": line_set, "parent_seed": 2 + si}
+    return _with_disk_faults(rng, cfg, hdr)
+
+
+def _with_disk_faults(rng, cfg, hdr):
+    cheap = not any(c["estimator"] == "lossmin" and c.get("loss") in ("se", "re") for c in cfg["cases"])
     if rng.random() < 0.12:
         hdr["crash"] = "pending"  # the write index is drawn once the reference has told how many writes a run makes
-    elif rng.random() < 0.12 and not any(c["estimator"] == "lossmin" and c.get("loss") in ("se", "re") for c in cfg["cases"]):
+        if cheap and rng.random() < 0.4:
+            hdr["stale_dir"] = True  # ... and the directory may already hold the files of an earlier, different run
+    elif rng.random() < 0.12 and cheap:
         hdr["stale_dir"] = True
     return hdr
 
